@@ -477,31 +477,21 @@ impl Connection {
                     header.sequence_id, header.fragment_id, header.fragment_id
                 );
 
-                if remaining.len() < header.num_atom_cache_refs as usize {
-                    return Err(Error::Protocol(format!(
-                        "fragment header announces {} atom cache bytes but only {} bytes follow",
-                        header.num_atom_cache_refs,
-                        remaining.len()
-                    )));
-                }
-
-                let atom_cache_data = if header.num_atom_cache_refs > 0 {
-                    Some(remaining[..header.num_atom_cache_refs as usize].to_vec())
-                } else {
-                    None
-                };
-
-                let payload_start = if header.num_atom_cache_refs > 0 {
-                    header.num_atom_cache_refs as usize
-                } else {
-                    0
-                };
+                // What follows the fragment header is the rest of a distribution header (flags and
+                // atom cache references) and the beginning of the message. Put the version tag, the
+                // DIST_HEADER tag and the reference count back in front of it, so that the
+                // reassembled message is decoded exactly like an unfragmented one.
+                let mut first_fragment = Vec::with_capacity(3 + remaining.len());
+                first_fragment.push(VERSION_TAG);
+                first_fragment.push(DIST_HEADER);
+                first_fragment.push(header.num_atom_cache_refs);
+                first_fragment.extend_from_slice(remaining);
 
                 if let Some(complete_data) = self.fragment_assembler.start_fragment(
                     header.sequence_id,
                     header.fragment_id,
-                    atom_cache_data,
-                    remaining[payload_start..].to_vec(),
+                    None,
+                    first_fragment,
                 ) {
                     trace!("Fragment sequence complete, processing");
                     return Self::decode_complete_fragment(&complete_data, &mut self.atom_cache);
